@@ -411,10 +411,10 @@ func C14(r *vf.Run) {
 				var pres []ref.State
 				consumed := uint64(0)
 				for consumed < budget {
-					pres = append(pres, absPrim(&B.s.CPU))
 					if B.s.GetPC() == target {
 						break
 					}
+					pres = append(pres, absPrim(&B.s.CPU))
 					var c int
 					if panB = vf.Try(func() { c, _ = B.s.CPU.Step() }); panB != nil {
 						break
@@ -486,7 +486,7 @@ func C14(r *vf.Run) {
 					continue
 				}
 				if len(cw.lines) != len(pres) {
-					r.Fail("trace-line-count", fmt.Sprintf("%d trace lines for %d loop iterations", len(cw.lines), len(pres)), det())
+					r.Fail("trace-line-count", fmt.Sprintf("%d trace lines for %d executed instructions", len(cw.lines), len(pres)), det())
 					continue
 				}
 				if len(plan) > 0 || pendingAtEntry > 0 {
@@ -625,7 +625,7 @@ func C14(r *vf.Run) {
 			for i := 0; i < n/chunks && !r.TooMany(); i++ {
 				var start uint32
 				where := ""
-				switch g.Intn(6) {
+				switch g.Intn(7) {
 				case 0:
 					start, where = uint32(g.Intn(0x40))<<16|uint32(0x8000+g.Intn(0x7F00)), "rom"
 				case 1:
@@ -634,6 +634,10 @@ func C14(r *vf.Run) {
 					start, where = uint32(g.Intn(0x40))<<16|uint32(g.Intn(0x1F00)), "wram-low-mirror"
 				case 3:
 					start, where = 0x700000+uint32(g.Intn(0x7F00)), "sram"
+				case 4:
+					// code that abuts a hole in the map: the last bytes of cartridge RAM, of the register
+					// window in the banks without ROM, of a ROM bank before an empty one
+					start, where = []uint32{0x707FF0, 0x717FF4, 0x407FF8, 0x6F7FF0, 0xC07FF2, 0x3FFFF0, 0xBFFFF4}[g.Intn(7)]+uint32(g.Intn(8)), "next-to-a-hole"
 				default:
 					// the register window: anywhere, and often right around the well-known registers
 					off := uint32(0x2000 + g.Intn(0x5F00))
@@ -690,7 +694,22 @@ func C14(r *vf.Run) {
 					}
 					j += l
 				}
+				if where == "next-to-a-hole" {
+					// one-byte instructions up to the last mapped byte ($xx7FFF / $xxFFFF)
+					endOff := uint32(0x7FFF)
+					if start&0xFFFF >= 0x8000 {
+						endOff = 0xFFFF
+					}
+					plen = int(endOff - start&0xFFFF + 1)
+					prog = prog[:plen]
+					for j := range prog {
+						prog[j] = []byte{0xEA, 0xE8, 0xC8, 0x1A, 0x18}[g.Intn(5)]
+					}
+				}
 				target := start&0xFF0000 | uint32(uint16(start)+uint16(g.Intn(plen)))
+				if where == "next-to-a-hole" && g.Intn(3) != 0 {
+					target = start + uint32(plen) - uint32(g.Intn(2)) // the last instruction, or the first unmapped address
+				}
 				if g.Intn(3) == 0 {
 					target = g.U32() & 0xFFFFFF
 				}
@@ -729,12 +748,8 @@ func C14(r *vf.Run) {
 				bad := ""
 				switch {
 				case (panA != nil) != (panB != nil):
-					// a run that faults (PC or data in an unmapped area) faults with or without the tracer,
-					// though not necessarily at the same point: the tracer reads the next instruction first
-					cells[fmt.Sprintf("real:fault-on-one-side-only:logged=%v", panA != nil)]++
-					if ci == 0 {
-						r.Sample(map[string]interface{}{"one_sided_fault": fmt.Sprint(panA, " / ", panB), "case": det()})
-					}
+					// a run that faults (PC or data in an unmapped area) faults with or without the tracer
+					bad = fmt.Sprintf("program in %s at $%06x: the logged run ended with %v, the unlogged run with %v", where, start, panA, panB)
 				case panA != nil:
 					cells["real:both-faulted"]++
 					if ci == 0 && cells["real:both-faulted"] < 12 {
@@ -778,7 +793,7 @@ func C14(r *vf.Run) {
 		for op := 0; op < 256; op++ {
 			r.Require(fmt.Sprintf("line:op%02x:e0:mx0%s", op, map[bool]string{true: ":backward", false: ""}[ref.Table[op].Mode == ref.Rel8]))
 		}
-		for _, c := range []string{"twin:writer", "twin:reserver", "twin:bufio", "twin:cpualt", "twin:ended-at-target-with-interrupt-pending", "twin:with-callbacks-or-interrupts", "real:rom", "real:wram", "real:wram-low-mirror", "real:sram", "real:register-window", "line:opd0:e0:mx3:forward", "line:op80:e1:mx3:backward"} {
+		for _, c := range []string{"twin:writer", "twin:reserver", "twin:bufio", "twin:cpualt", "twin:ended-at-target-with-interrupt-pending", "twin:with-callbacks-or-interrupts", "real:rom", "real:wram", "real:wram-low-mirror", "real:sram", "real:register-window", "real:next-to-a-hole", "line:opd0:e0:mx3:forward", "line:op80:e1:mx3:backward"} {
 			r.Require(c)
 		}
 	}
